@@ -76,6 +76,7 @@ type MapObj struct {
 	Entries []*MapEntry
 	Epoch   int
 	Kind    string // "" ordinary; "header" canonicalising
+	Lazy    *lazyMapSpec
 }
 type MapV struct{ M *MapObj } // M == nil: nil map
 
